@@ -52,7 +52,8 @@ def parseBytesN : Nat → List String → Option (List Bytes × List String)
   | _, _ => none
 
 def kindOf : String → Option Kind
-  | "cw" => some .cw | "same" => some .same | "split" => some .split | "none" => some .none | _ => none
+  | "cw" => some .cw | "same" => some .same | "split" => some .split | "none" => some .none
+  | "prod" => some .prod | "wcw" => some .wcw | _ => none
 
 def parseEPk (kind : Kind) : List String → Option (EP × List String)
   | tl :: fu :: wf :: cot :: k :: ts => do
@@ -90,8 +91,8 @@ structure TcpCase where
   b : EP
   sched : List TTok
 
-def parseTcp : List String → Option TcpCase
-  | "tcp" :: "A" :: ts => do
+def parseTcpBody : List String → Option TcpCase
+  | "A" :: ts => do
     let (a, ts) ← parseEP ts
     match ts with
     | "B" :: ts => do
@@ -102,6 +103,13 @@ def parseTcp : List String → Option TcpCase
         pure ⟨a, b, σ⟩
       | _ => none
     | _ => none
+  | _ => none
+
+/-- `tcp …`: the relay is called directly; `tcpt …`: it is run by a real `tunnel.Tunnel` (`Start` → `runDataCopy` →
+`Close`), the observation additionally carries the close reason, the tunnel's byte statistics and how often `OnClosed` ran. -/
+def parseTcp : List String → Option TcpCase
+  | "tcp" :: ts => parseTcpBody ts
+  | "tcpt" :: ts => parseTcpBody ts
   | _ => none
 
 def tcpObsStr (o : TcpObs) : String :=
@@ -239,6 +247,13 @@ def runModel (ts : List String) : String :=
     match parseTcp ts with
     | some c => tcpObsStr (tcpObs c.a c.b (tcpRunFast c.a c.b c.sched))
     | none => "bad-case"
+  | "tcpt" :: _ =>
+    match parseTcp ts with
+    | some c =>
+      let o := tcpObs c.a c.b (tcpRunFast c.a c.b c.sched)
+      if !o.ret then "timeout" else
+      tcpObsStr o ++ s!" reason {tunnelReason o.serr o.rerr} st {o.sent} {o.recv} closed 1"
+    | none => "bad-case"
   | "udp" :: _ =>
     match parseUdp ts with
     | some l => udpObsStr (udpObs (udpRunFast .repaired l.case l.sched))
@@ -264,6 +279,14 @@ def runHolds (caseToks obsToks : List String) : String :=
       match parseTcpObs obsToks with
       | some o => boolStr (holdsTcp c.a c.b o)
       | none => "false"
+    | none => "bad-case"
+  | "tcpt" :: _ =>
+    match parseTcp caseToks with
+    | some c =>
+      -- the relay part of the observation must satisfy the property; the tunnel must have closed exactly once
+      match parseTcpObs (obsToks.take 26), obsToks.drop 26 with
+      | some o, ["reason", _, "st", _, _, "closed", n] => boolStr (holdsTcp c.a c.b o && n == "1")
+      | _, _ => "false"
     | none => "bad-case"
   | "udp" :: _ =>
     match parseUdp caseToks with
